@@ -99,5 +99,18 @@ func (c *Coordinator) VerifPending(sessionID string) (pending bool, known bool) 
 		}
 		return true, true
 	}
+	// any other map keyed by the session id: no entry = not pending, an entry whose value is a bool
+	// says what the bool says; what any other entry (a start time, a struct, a counter ...) means the
+	// hook cannot know - the harness then goes by whether the id is admitted again
+	if f.Kind() == reflect.Map && f.Type().Key().Kind() == reflect.String {
+		v := f.MapIndex(reflect.ValueOf(sessionID).Convert(f.Type().Key()))
+		if !v.IsValid() {
+			return false, true
+		}
+		if v.Kind() == reflect.Bool {
+			return v.Bool(), true
+		}
+		return false, false
+	}
 	return false, false
 }
